@@ -17,7 +17,7 @@ from ..runner import Kind, R, bad
 from ..exact import Q
 from .c12 import C, peval
 
-from audiolazy import (lowpass, highpass, resonator, comb, gammatone, Stream, ZFilter, CascadeFilter, inf)
+from audiolazy import (lowpass, highpass, resonator, comb, gammatone, Stream, ZFilter, CascadeFilter, inf, thub)
 
 PROPERTY = "C13"
 LEVEL = "exploration"
@@ -322,13 +322,22 @@ def gen_streams(run):
 
 
 # a "stream-valued" parameter may be handed over as any iterable
-CKINDS = ["stream", "list", "tuple", "iter", "generator"]
+CKINDS = ["stream", "list", "tuple", "iter", "generator", "hub1", "hub-shared"]
 
 
 def as_kind(ck, vals):
   vals = list(vals)
+  if ck == "hub1":
+    return thub(Stream(vals), 1)         # a parameter that already is a hub with ONE use: the design takes exactly that use
+  if ck == "hub-shared":
+    h = thub(Stream(vals), 2)            # the caller keeps the other use: it must still be there afterwards
+    _SHARED.append(h)
+    return h
   return {"stream": lambda: Stream(vals), "list": lambda: vals, "tuple": lambda: tuple(vals),
           "iter": lambda: iter(vals), "generator": lambda: (v for v in vals)}[ck]()
+
+
+_SHARED = []
 
 
 PARAM_LISTS = [[0.3, 1.2, 2.9, 0.01, pi / 2, 1.0], [pi / 2, pi / 2 + 1e-9, 0.5], [1e-3, pi - 1e-3, 2.0, 2.0, 0.7]]
@@ -337,6 +346,19 @@ BW_LISTS = [[0.1, 0.5, 0.02, 1.0, 0.3, 0.3], [0.25, 0.5, 1e-3], [1.0, 0.7, 0.05,
 
 def run_streams(case):
   fam, name, vi, which, ck = case
+  if ck in ("hub1", "hub-shared"):
+    del _SHARED[:]
+    r = run_streams_inner(case)
+    if r.viol is None:
+      for h in _SHARED:                  # the use the caller kept is intact and sees the whole sequence
+        try:
+          rest = list(Stream(h))
+        except Exception as exc:
+          return bad("stream-params:hub-use", "a design given a 2-use hub took more than one use of it",
+                     "one use left", type(exc).__name__ + ": " + str(exc)[:120])
+        if len(rest) not in (len(PARAM_LISTS[vi]), len(BW_LISTS[vi]), 3, 5, 6):
+          return bad("stream-params:hub-use", "the use of the hub kept by the caller does not see the whole sequence", None, rest)
+    return r
   if ck != "stream":
     # Other iterables are not promised to be accepted everywhere (several designs do arithmetic on
     # the parameter before wrapping it): a TypeError is "unsupported", but an accepted iterable must
